@@ -551,6 +551,13 @@ def stage_threshold(ctx):
                 do_threshold(ctx, data, nsigma, barr, earr, None, 'array/array')
                 do_threshold(ctx, data, nsigma, barr.astype(np.float32), earr, None, 'f32array/array')
                 do_threshold(ctx, data, nsigma, (barr * 0 + rep).astype(np.int64), earr, None, 'intarray/array')
+        # the image itself in other representations: the threshold is a property of background and
+        # error, never of the image dtype (integer counts with a fractional background)
+        for dt in (np.int64, np.uint16, np.int16, np.float32):
+            idata = (np.abs(data) * 40 + 3).astype(dt)
+            do_threshold(ctx, idata, 2.5, 16.7, 0.2, None, f'{np.dtype(dt).name}-image/scalar/scalar')
+            do_threshold(ctx, idata, 3, rng.normal(10.3, 0.4, size=(h, w)), 1.75, None,
+                         f'{np.dtype(dt).name}-image/array/scalar')
     # estimated background / error (sigma-clipped statistics), with and without a mask
     for rep in range(10 if not ctx.thorough else 60):
         h, w = int(rng.integers(4, 12)), int(rng.integers(4, 12))
